@@ -58,7 +58,11 @@ LEVEL_NOTE = (
 TECHNIQUE = ("Lean 4 proof (parser-combinator style induction over the module structure, reusing the C20 LEB128 theorems) about a hand model "
              "parameterised by tables + table translation (decide +kernel on the regenerated dictionaries) + differential correspondence of the "
              "real reader/writer with the model + evaluation of the binary and text round trip on the real code")
-RULE = ("modules: typed random generator over the real components API (sizes 1-40 definitions, bodies nested to depth 5, br_table with distinct "
+RULE = ("every unsigned numeric field (limits min/max in all six shapes (0,0) (n,n) (0,None) (n,None) (0,n) (n,m); memarg offsets; segment "
+        "offsets; vector/name/data/locals/param/label-vector lengths; function counts) is drawn from a boundary-biased pool {0,1,2,63,64,65,127,"
+        "128,129,255,256,2^14-1,2^14,2^14+1,2^16-1,2^16,2^21,2^28,2^31,2^32-1} where valid; a fixed corpus of ~490 hand-assembled canonical "
+        "binaries (mini assembler independent of ppci's writer) covers every section kind with those boundary values; "
+        "modules: typed random generator over the real components API (sizes 1-40 definitions, bodies nested to depth 5, br_table with distinct "
         "labels, memarg align/offset incl. offsets >= 64 and >= 2^31, indices >= 64 and >= 128 through many locals/functions, all four value "
         "types, boundary and random i32/i64 constants, float constants incl. inf/-0/denormal/canonical NaN, unicode names, data 0-300 bytes, "
         "active/passive data, imports of all four kinds, externref tables) + modules compiled by ppci from generated C; variants: every "
@@ -287,6 +291,10 @@ def ids_sequential(m):
 # ----------------------------------------------------------------------------------------------
 # generator of valid modules (typed)
 VT = ["i32", "i64", "f32", "f64"]
+# boundary-biased pool for every unsigned numeric field (LEB128 length changes at 2^7k; 0; 1; all-ones)
+BND = [0, 0, 1, 1, 2, 63, 64, 65, 127, 128, 129, 255, 256, 16383, 16384, 16385, 65535, 65536, 65537, (1 << 21) - 1, 1 << 21,
+       (1 << 28) - 1, 1 << 28, (1 << 31) - 1, 1 << 31, (1 << 32) - 1]
+SMALL_BND = [0, 0, 1, 1, 2, 63, 64, 65, 127, 128, 129]          # for vector lengths that are materialised
 NAT_ALIGN = {"8": 0, "16": 1, "32": 2}
 
 
@@ -353,12 +361,36 @@ class ModGen:
             return [self.I("f32.const", self.const_f(32))]
         return [self.I("f64.const", self.const_f(64))]
 
+    def bnd(self, hi=(1 << 32) - 1, lo=0):
+        """a number in [lo, hi] from the boundary-biased pool BND (LEB128 length changes, 0, 1, all-ones) or, less often, random"""
+        r = self.rng
+        cand = [v for v in BND if lo <= v <= hi]
+        if cand and r.random() < 0.75:
+            return r.choice(cand)
+        return r.randint(lo, min(hi, lo + r.choice([10, 300, 70000, hi])))
+
+    def limits(self, hi):
+        """(min, max): every shape - (0,0) (n,n) (0,None) (n,None) (0,n) (n,m) - with boundary-biased numbers"""
+        r = self.rng
+        k = r.randrange(7)
+        n = self.bnd(hi)
+        if k == 0:
+            return 0, 0
+        if k == 1:
+            return n, n
+        if k == 2:
+            return 0, None
+        if k == 3:
+            return n, None
+        if k == 4:
+            return 0, n
+        return n, self.bnd(hi, lo=n)
+
     def memarg(self, nbits):
         r = self.rng
         nat = {8: 0, 16: 1, 32: 2, 64: 3}[nbits]
         align = nat if r.random() < 0.5 else r.randint(0, nat)
-        off = r.choice([0, 0, 1, 4, 63, 64, 65, 127, 128, 255, 300, 16384, (1 << 31), (1 << 32) - 1, r.randrange(1 << 20)])
-        return align, off
+        return align, self.bnd()
 
     # -- expressions (leave one value of type t)
     def expr(self, t, depth):
@@ -462,7 +494,7 @@ class ModGen:
             ps, rs = self.funcsigs[i]
             out = []
             for p in ps:
-                out += self.expr(p, depth - 1)
+                out += self.expr(p, depth - 1 if len(ps) <= 6 else 0)      # many-parameter signatures: flat arguments
             if c == "call":
                 return out + [self.I("call", self.ref("func", i))]
             return out + self.expr("i32", depth - 1) + [self.I("call_indirect", self.ref("type", self.type_of_sig(ps, rs)), self.ref("table", 0))]
@@ -517,7 +549,7 @@ class ModGen:
             i = r.choice([i for i, (ps, rs) in enumerate(self.funcsigs) if rs == []])
             out = []
             for p in self.funcsigs[i][0]:
-                out += self.expr(p, depth - 1)
+                out += self.expr(p, depth - 1 if len(self.funcsigs[i][0]) <= 6 else 0)
             return out + [self.I("call", self.ref("func", i))]
         if c == "br_if":
             return self.expr("i32", depth - 1) + [self.I("br_if", self.ref("label", r.choice(self.branch_targets())))]
@@ -547,6 +579,8 @@ class ModGen:
                 self.labels.append("emptyblock")
             tgts = self.branch_targets()
             k = r.randint(0, min(6, len(tgts) + 2))
+            if r.random() < 0.08:
+                k = r.choice([63, 64, 127, 128])           # label vector length on a LEB128 boundary
             lab = [r.choice(tgts) for _ in range(k)]
             default = r.choice(tgts)
             if len(tgts) > 1 and lab and r.random() < 0.8:
@@ -580,6 +614,9 @@ class ModGen:
         if k == 0:
             return r.choice(["", "a", "memory", "main", "_start", "x.y", "a b", "ÿ", "日本語", "π≈3", "😀", "a\\b", "tab\there"])
         alphabet = "abcdefghijklmnopqrstuvwxyzABCDEFGHIJKLMNOPQRSTUVWXYZ0123456789_.$-+*/<>=!?@#%^&|~:;,'`()[]{} éßλЖ中🙂"
+        if k == 1:
+            # ASCII name whose UTF-8 length sits on a LEB128 / small boundary (0, 1, 63, 64, 127, 128, ...)
+            return "".join(r.choice(alphabet[:64]) for _ in range(r.choice(SMALL_BND + [255, 256])))
         return "".join(r.choice(alphabet) for _ in range(r.randint(1, 12 if k < 5 else 140)))
 
     def build(self):
@@ -587,7 +624,7 @@ class ModGen:
         self.sigs, self.sigidx = [], {}
         defs_import, self.funcsigs, self.globals = [], [], []
         nimpf = r.choice([0, 0, 1, 2, 3])
-        n_funcs = r.randint(1, 6) if not self.many_funcs else r.randint(66, 140)
+        n_funcs = r.randint(1, 6) if not self.many_funcs else r.choice([63, 64, 65, 127, 128, 129, 140])
         if self.big:
             n_funcs = r.randint(4, 10)
         imp_table = r.random() < 0.15
@@ -620,7 +657,7 @@ class ModGen:
         # function signatures first (bodies may call any function)
         fdefs = []
         for k in range(n_funcs):
-            ps = [r.choice(VT) for _ in range(r.randint(0, 3))]
+            ps = [r.choice(VT) for _ in range(r.randint(0, 3) if r.random() < 0.95 else r.choice([63, 64, 127, 128]))]
             rs = [r.choice(VT)] if r.random() < 0.6 else []
             if k == 0 and r.random() < 0.5:
                 ps, rs = [], []          # candidate for start
@@ -630,9 +667,9 @@ class ModGen:
         # bodies
         funcs = []
         for k, (ps, rs) in enumerate(fdefs):
-            nloc = r.choice([0, 1, 2, 3, 5, 8])
-            if self.big and r.random() < 0.4:
-                nloc = r.choice([70, 130, 200])
+            nloc = r.choice([0, 0, 1, 2, 3, 5, 8])
+            if self.big and r.random() < 0.6:
+                nloc = r.choice([63, 64, 65, 127, 128, 129, 200])
             if r.random() < 0.5:
                 # runs of equal types (exercise the grouping of locals)
                 ltypes = []
@@ -660,21 +697,21 @@ class ModGen:
                 out.append(C.Import(self.name(), self.name(), "global", gi, (self.globals[x][0], self.globals[x][1])))
                 gi += 1
             elif kind == "table":
-                mn = r.randint(0, 300)
+                mn, mx = self.limits((1 << 32) - 1)
                 out.append(C.Import(self.name(), self.name(), "table", 0,
-                                    (r.choice(["funcref", "funcref", "externref"]) if not self.has_table_use() else "funcref", mn,
-                                     r.choice([None, mn, mn + r.randint(0, 70000)]))))
+                                    (r.choice(["funcref", "funcref", "externref"]) if not self.has_table_use() else "funcref", mn, mx)))
             else:
-                mn = r.randint(0, 200)
-                out.append(C.Import(self.name(), self.name(), "memory", 0, (mn, r.choice([None, mn, mn + r.randint(0, 65000)]))))
+                mn, mx = self.limits(65536)
+                out.append(C.Import(self.name(), self.name(), "memory", 0, (mn, mx)))
         if self.has_table and not imp_table:
-            mn = r.randint(0, 300)
-            out.append(C.Table(0, "funcref", mn, r.choice([None, mn, mn + r.randint(0, 70000)])))
+            mn, mx = self.limits((1 << 32) - 1)
+            out.append(C.Table(0, "funcref", mn, mx))
         elif not self.has_table and r.random() < 0.1:
-            out.append(C.Table(0, "externref", r.randint(0, 5), None))
+            mn, mx = self.limits((1 << 32) - 1)
+            out.append(C.Table(0, "externref", mn, mx))
         if self.has_mem and not imp_mem:
-            mn = r.randint(0, 200)
-            out.append(C.Memory(0, mn, r.choice([None, mn, mn + r.randint(0, 65000)])))
+            mn, mx = self.limits(65536)
+            out.append(C.Memory(0, mn, mx))
         for g in gdefs:
             t, mut = self.globals[g]
             init = self.const(t)
@@ -697,21 +734,21 @@ class ModGen:
             out.append(C.Start(self.ref("func", nimpf)))
         if self.has_table:
             for _ in range(r.choice([0, 1, 1, 2])):
-                off = [self.I("i32.const", r.choice([0, 1, 63, 64, 100, 128, 200]))]
+                off = [self.I("i32.const", self.bnd((1 << 31) - 1))]
                 imm = [i for i in range(n_imp_globals) if self.globals[i] == ("i32", False)]
                 if imm and r.random() < 0.3:
                     off = [self.I("global.get", self.ref("global", r.choice(imm)))]
-                out.append(C.Elem(0, (self.ref("table", 0), off), [self.ref("func", r.randrange(nf)) for _ in range(r.choice([0, 1, 3, 7, 130]))]))
+                out.append(C.Elem(0, (self.ref("table", 0), off), [self.ref("func", r.randrange(nf)) for _ in range(r.choice(SMALL_BND))]))
         out += funcs
         if self.has_mem:
             for _ in range(r.choice([0, 1, 1, 3])):
-                n = r.choice([0, 1, 5, 63, 64, 127, 128, 300])
+                n = r.choice(SMALL_BND + [300] + ([16383, 16384] if self.feature.get("thorough") else []) if r.random() < 0.9 else [5])
                 data = bytes(r.randrange(256) for _ in range(n))
                 k = r.random()
                 if k < 0.15 and self.feature.get("passive", True):
                     mode = None
                 else:
-                    off = [self.I("i32.const", r.choice([0, 8, 63, 64, 65, 1000, 65536, -1 & 0x7FFFFFFF]))]
+                    off = [self.I("i32.const", self.bnd((1 << 31) - 1) if r.random() < 0.8 else self.const_i(32))]
                     mode = (self.ref("memory", 0), off)
                 out.append(C.Data(0, mode, data))
         # the definitions are kept in section order here; a shuffled copy is made by the caller
@@ -894,6 +931,200 @@ def variants(rng, b):
     return out
 
 
+# ----------------------------------------------------------------------------------------------
+# hand-assembled canonical binaries: a mini assembler that shares nothing with ppci's writer, so that read -> write byte identity
+# is checked against bytes ppci did not produce (a writer defect that its own reader maps back cannot hide here)
+def sleb(n):
+    out = bytearray()
+    while True:
+        b = n & 0x7F
+        n >>= 7
+        if (n == 0 and not b & 0x40) or (n == -1 and b & 0x40):
+            out.append(b)
+            return bytes(out)
+        out.append(b | 0x80)
+
+
+def a_vec(items):
+    items = list(items)
+    return uleb(len(items)) + b"".join(items)
+
+
+def a_limits(mn, mx):
+    return b"\x00" + uleb(mn) if mx is None else b"\x01" + uleb(mn) + uleb(mx)
+
+
+def a_name(b):
+    b = b.encode("utf-8") if isinstance(b, str) else bytes(b)
+    return uleb(len(b)) + b
+
+
+def a_sect(sid, payload):
+    return bytes([sid]) + uleb(len(payload)) + payload
+
+
+def a_module(*sections):
+    return b"\x00asm\x01\x00\x00\x00" + b"".join(sections)
+
+
+VTB = {"i32": b"\x7f", "i64": b"\x7e", "f32": b"\x7d", "f64": b"\x7c"}
+NUMS = [0, 1, 63, 64, 127, 128, 16383, 16384]
+
+
+def a_functype(ps=(), rs=()):
+    return b"\x60" + a_vec(VTB[t] for t in ps) + a_vec(VTB[t] for t in rs)
+
+
+def a_const(t, v):
+    if t == "i32":
+        return b"\x41" + sleb(v) + b"\x0b"
+    if t == "i64":
+        return b"\x42" + sleb(v) + b"\x0b"
+    if t == "f32":
+        return b"\x43" + struct.pack("<f", v) + b"\x0b"
+    return b"\x44" + struct.pack("<d", v) + b"\x0b"
+
+
+def a_code(locals_groups, body):
+    """one code entry: body = instruction bytes without the final end"""
+    inner = a_vec(uleb(c) + VTB[t] for c, t in locals_groups) + body + b"\x0b"
+    return uleb(len(inner)) + inner
+
+
+def limit_shapes(hi):
+    out = [(0, 0), (0, None)]
+    for n in NUMS + [65535, 65536, (1 << 32) - 1]:
+        if 0 < n <= hi:
+            out += [(n, None), (n, n), (0, n), (1, n)]
+    return out
+
+
+def hand_binaries(thorough=True):
+    """(label, bytes, valid_module) - every section kind with boundary values; all canonically encoded, ppci section order"""
+    out = []
+    T1 = a_sect(1, a_vec([a_functype()]))
+    F1 = a_sect(3, a_vec([uleb(0)]))
+    C1 = a_sect(10, a_vec([a_code([], b"")]))
+    # type section
+    out.append(("type-empty-sig", a_module(T1), True))
+    out.append(("type-mixed", a_module(a_sect(1, a_vec([a_functype(), a_functype(["i32"], ["i32"]), a_functype(["i64", "f32", "f64"], ["f64"]),
+                                                       a_functype(["i32"] * 2, [])]))), True))
+    for n in (63, 64, 127, 128):
+        out.append((f"type-{n}-params", a_module(a_sect(1, a_vec([a_functype(["i32", "f64"] * (n // 2) + ["i64"] * (n % 2), ["i32"])]))), True))
+        out.append((f"type-{n}-types", a_module(a_sect(1, a_vec([a_functype()] * n))), True))
+    # imports
+    for n in (0, 63, 64, 127, 128):
+        types = a_sect(1, a_vec([a_functype()] * (n + 1)))
+        out.append((f"import-func-type{n}", a_module(types, a_sect(2, a_vec([a_name("m") + a_name("f") + b"\x00" + uleb(n)]))), True))
+    for mn, mx in limit_shapes((1 << 32) - 1):
+        for rt, rb in (("funcref", b"\x70"), ("externref", b"\x6f")):
+            out.append((f"import-table-{rt}-{mn}-{mx}", a_module(a_sect(2, a_vec([a_name("m") + a_name("t") + b"\x01" + rb + a_limits(mn, mx)]))), True))
+            out.append((f"table-{rt}-{mn}-{mx}", a_module(a_sect(4, a_vec([rb + a_limits(mn, mx)]))), True))
+    for mn, mx in limit_shapes(65536):
+        out.append((f"import-memory-{mn}-{mx}", a_module(a_sect(2, a_vec([a_name("m") + a_name("mem") + b"\x02" + a_limits(mn, mx)]))), True))
+        out.append((f"memory-{mn}-{mx}", a_module(a_sect(5, a_vec([a_limits(mn, mx)]))), True))
+    for t in VTB:
+        for mut in (0, 1):
+            out.append((f"import-global-{t}-{mut}", a_module(a_sect(2, a_vec([a_name("") + a_name("g") + b"\x03" + VTB[t] + bytes([mut])]))), True))
+    for n in (0, 1, 63, 64, 127, 128, 300):
+        nm = "n" * n
+        out.append((f"import-name-len{n}", a_module(T1, a_sect(2, a_vec([a_name(nm) + a_name(nm[: n // 2]) + b"\x00" + uleb(0)]))), True))
+        out.append((f"export-name-len{n}", a_module(T1, F1, a_sect(7, a_vec([a_name(nm) + b"\x00" + uleb(0)])), C1), True))
+    # globals
+    consts = {"i32": [0, 1, -1, 63, 64, -64, -65, 127, 128, -128, -129, 8191, 8192, -8192, -8193, 2**31 - 1, -2**31],
+              "i64": [0, -1, 63, 64, -64, -65, 2**31, -2**31 - 1, 2**62, -2**62 - 1, 2**63 - 1, -2**63],
+              "f32": [0.0, -0.0, 1.5, float("inf"), -float("inf")], "f64": [0.0, -0.0, 0.1, float("inf"), 5e-324]}
+    for t, vs in consts.items():
+        out.append((f"globals-{t}", a_module(a_sect(6, a_vec(VTB[t] + bytes([k % 2]) + a_const(t, v) for k, v in enumerate(vs)))), True))
+    out.append(("global-init-global.get", a_module(a_sect(2, a_vec([a_name("m") + a_name("g") + b"\x03\x7f\x00"])),
+                                                   a_sect(6, a_vec([b"\x7f\x00\x23\x00\x0b"]))), True))
+    # exports / start: index boundaries (the indices need not exist for the byte identity; flagged not valid)
+    for k, kn in enumerate(("func", "table", "memory", "global")):
+        for n in NUMS:
+            out.append((f"export-{kn}-{n}", a_module(a_sect(7, a_vec([a_name("e") + bytes([k]) + uleb(n)]))), False))
+    for n in NUMS + [(1 << 32) - 1]:
+        out.append((f"start-{n}", a_module(a_sect(8, uleb(n))), False))
+        out.append((f"datacount-{n}", a_module(a_sect(12, uleb(n))), False))
+    out.append(("start-valid", a_module(T1, F1, a_sect(8, uleb(0)), C1), True))
+    # element segments
+    for off in (0, 1, 63, 64, 127, 128, 8191, 8192, 2**31 - 1):
+        for nrefs in (0, 1, 2):
+            out.append((f"elem-off{off}-refs{nrefs}", a_module(T1, F1, a_sect(4, a_vec([b"\x70" + a_limits(0, None)])),
+                        a_sect(9, a_vec([b"\x00" + a_const("i32", off) + a_vec([uleb(0)] * nrefs)])), C1), True))
+    for nrefs in (63, 64, 127, 128):
+        out.append((f"elem-refs{nrefs}", a_module(T1, F1, a_sect(4, a_vec([b"\x70" + a_limits(nrefs, nrefs)])),
+                    a_sect(9, a_vec([b"\x00" + a_const("i32", 0) + a_vec([uleb(0)] * nrefs)])), C1), True))
+    out.append(("elem-funcidx-big", a_module(a_sect(9, a_vec([b"\x00" + a_const("i32", 5) + a_vec(uleb(n) for n in NUMS)]))), False))
+    # function + code: locals runs, bodies
+    for c in (1, 2, 63, 64, 127, 128) + ((16383, 16384) if thorough else ()):
+        out.append((f"locals-run-{c}", a_module(T1, F1, a_sect(10, a_vec([a_code([(c, "i32"), (1, "f64"), (c, "i32")], b"")]))), True))
+    for n in (2, 63, 64, 127, 128):
+        out.append((f"funcs-{n}", a_module(a_sect(1, a_vec([a_functype(), a_functype(["i32"], [])])), a_sect(3, a_vec(uleb(k % 2) for k in range(n))),
+                                           a_sect(10, a_vec(a_code([], b"\x01" * (k % 3)) for k in range(n)))), True))
+    MEM = a_sect(5, a_vec([a_limits(1, None)]))
+    for off in NUMS + [65535, 65536, 2**31, 2**32 - 1]:
+        for align in (0, 1, 2):
+            body = b"\x41\x00\x28" + uleb(align) + uleb(off) + b"\x1a" + b"\x41\x00\x41\x00\x36" + uleb(align) + uleb(off)
+            out.append((f"memarg-a{align}-o{off}", a_module(T1, F1, MEM, a_sect(10, a_vec([a_code([], body)]))), True))
+    out.append(("memarg-i64-align3", a_module(T1, F1, MEM, a_sect(10, a_vec([a_code([], b"\x41\x00\x29\x03\x01\x1a\x41\x00\x42\x00\x3e\x02\x40")]))), True))
+    for n in (0, 1, 2, 63, 64, 127, 128):
+        # n+1 nested blocks, br_table with n entries + default, all labels distinct where possible
+        labels = [uleb(k % (n + 1)) for k in range(n)] + [uleb(n)]
+        body = b"\x02\x40" * (n + 1) + b"\x41\x00\x0e" + a_vec(labels[:-1]) + labels[-1] + b"\x0b" * (n + 1)
+        out.append((f"br_table-{n}", a_module(T1, F1, a_sect(10, a_vec([a_code([], body)]))), True))
+    # block (result i32) .. br_if 0 .. end drop; loop if br 1 else nop end end; if (result f64) .. else .. end drop; select; typed select;
+    # memory.size memory.grow drop; f32.const i32.trunc_sat_f32_s drop; return
+    ctl = (b"\x02\x7f\x41\x01\x41\x00\x0d\x00\x1a\x41\x02\x0b\x1a"
+           b"\x03\x40\x41\x00\x04\x40\x0c\x01\x05\x01\x0b\x0b"
+           b"\x41\x00\x04\x7c\x44" + struct.pack("<d", 1.0) + b"\x05\x44" + struct.pack("<d", 2.0) + b"\x0b\x1a"
+           b"\x41\x01\x41\x02\x41\x00\x1b\x1a"
+           b"\x41\x01\x41\x02\x41\x00\x1c\x01\x7f\x1a"
+           b"\x3f\x00\x40\x00\x1a"
+           b"\x43" + struct.pack("<f", 1.5) + b"\xfc\x00\x1a"                       # f32.const; i32.trunc_sat_f32_s; drop
+           b"\x0f")                                                                     # return
+    out.append(("control-mix", a_module(T1, F1, MEM, a_sect(10, a_vec([a_code([], ctl)]))), True))
+    out.append(("call_indirect", a_module(T1, F1, a_sect(4, a_vec([b"\x70" + a_limits(1, 1)])),
+                                          a_sect(10, a_vec([a_code([], b"\x41\x00\x11\x00\x00\x10\x00")]))), True))
+    for n in (63, 64, 127, 128):
+        body = b"\x20" + uleb(n) + b"\x21" + uleb(n - 1) + b"\x20" + uleb(0) + b"\x22" + uleb(n) + b"\x1a"
+        out.append((f"localidx-{n}", a_module(T1, F1, a_sect(10, a_vec([a_code([(n + 1, "i32")], body)]))), True))
+    for v in consts["i32"]:
+        out.append((f"i32.const-{v}", a_module(T1, F1, a_sect(10, a_vec([a_code([], b"\x41" + sleb(v) + b"\x1a")]))), True))
+    for v in consts["i64"]:
+        out.append((f"i64.const-{v}", a_module(T1, F1, a_sect(10, a_vec([a_code([], b"\x42" + sleb(v) + b"\x1a")]))), True))
+    for size in (125, 126, 127, 128) + ((16381, 16382, 16383, 16384) if thorough else ()):   # 16K items cost ~10 s each in the driver
+        # body whose byte size (locals vector + nops + end) crosses a LEB128 boundary of the body-size field
+        out.append((f"body-size-{size}", a_module(T1, F1, a_sect(10, a_vec([a_code([], b"\x01" * (size - 2))]))), True))
+    # data segments
+    for n in (0, 1, 63, 64, 127, 128) + ((16383, 16384) if thorough else ()):
+        out.append((f"data-active-len{n}", a_module(MEM, a_sect(11, a_vec([b"\x00" + a_const("i32", n) + uleb(n) + bytes(k & 0xFF for k in range(n))]))), True))
+        out.append((f"data-passive-len{n}", a_module(MEM, a_sect(11, a_vec([b"\x01" + uleb(n) + bytes((k * 7) & 0xFF for k in range(n))]))), True))
+    for mem in (1, 127, 128):
+        out.append((f"data-mem{mem}", a_module(a_sect(11, a_vec([b"\x02" + uleb(mem) + a_const("i32", 0) + uleb(2) + b"hi"]))), False))
+    out.append(("data-three", a_module(MEM, a_sect(11, a_vec([b"\x00" + a_const("i32", 0) + uleb(1) + b"$", b"\x01" + uleb(0),
+                                                               b"\x00" + a_const("i32", 65536) + uleb(3) + b"\x00\xff\x80"]))), True))
+    # custom sections (front only in ppci's order)
+    for n in (0, 1, 127, 128):
+        out.append((f"custom-name{n}", a_module(a_sect(0, a_name("c" * n) + b"\x00\x01\x02"), a_sect(0, a_name("z" * n)), T1), False))
+    # everything at once, ppci section order
+    out.append(("all-sections", a_module(
+        a_sect(0, a_name("meta") + b"\xde\xad"),
+        a_sect(1, a_vec([a_functype(), a_functype(["i32"], ["i32"])])),
+        a_sect(2, a_vec([a_name("env") + a_name("f") + b"\x00" + uleb(1), a_name("env") + a_name("g") + b"\x03\x7f\x00"])),
+        a_sect(3, a_vec([uleb(0), uleb(1)])),
+        a_sect(4, a_vec([b"\x70" + a_limits(0, 0)])),
+        a_sect(5, a_vec([a_limits(0, 0)])),
+        a_sect(6, a_vec([b"\x7e\x01" + a_const("i64", -1)])),
+        a_sect(7, a_vec([a_name("main") + b"\x00" + uleb(1), a_name("mem") + b"\x02" + uleb(0), a_name("tab") + b"\x01" + uleb(0),
+                         a_name("glob") + b"\x03" + uleb(1)])),
+        a_sect(8, uleb(1)),
+        a_sect(9, a_vec([b"\x00" + b"\x23\x00\x0b" + a_vec([uleb(0), uleb(2)])])),
+        a_sect(10, a_vec([a_code([], b""), a_code([(2, "i32")], b"\x20\x00")])),
+        a_sect(11, a_vec([b"\x00" + a_const("i32", 0) + uleb(0)])),
+        a_sect(12, uleb(1))), False))
+    return out
+
+
 # hand-made byte strings: boundary cases, past findings
 def hx(s):
     return bytes.fromhex(s.replace(" ", ""))
@@ -1043,6 +1274,10 @@ def check(ctx):
         ("api-consts", [T0, C.Func(0, R("type", index=0), [], sum([[I("i32.const", v), I("drop")] for v in
                         (63, 64, -64, -65, 127, 128, -128, -129, 2**31 - 1, -2**31)], []) + sum([[I("i64.const", v), I("drop")] for v in
                         (2**62, -2**62 - 1, 2**63 - 1, -2**63)], []))]),
+        ("api-limits-max0", [C.Memory(0, 0, 0), C.Table(0, "funcref", 0, 0)]),           # seeded change once missed: max 0 is not "no max"
+        ("api-limits-import-max0", [C.Import("m", "mem", "memory", 0, (0, 0)), C.Import("m", "tab", "table", 0, ("funcref", 0, 0))]),
+        ("api-limits-eq", [C.Memory(0, 1, 1), C.Table(0, "funcref", 128, 128)]),
+        ("api-limits-bounds", [C.Memory(0, 0, 65536), C.Table(0, "externref", 16384, (1 << 32) - 1)]),
         ("api-table-min0", [C.Table(0, "funcref", 0, None)]),                       # fixed finding: printed as "(table funcref)"
         ("api-externref-table-min0", [C.Table(0, "externref", 0, None)]),
         ("api-passive-data-dollar", [C.Memory(0, 1, None), C.Data(0, None, b"$abc"), C.Data(1, None, b"$")]),   # fixed finding
@@ -1060,7 +1295,7 @@ def check(ctx):
             kw["big"] = True
         if k % 25 == 7:
             kw["many_funcs"] = True
-        m = gen_module(sub, **kw)
+        m = gen_module(sub, feature={"thorough": thorough}, **kw)
         if k % 4 == 1:
             defs = list(m.definitions)
             sub.shuffle(defs)           # the writer sorts them into sections again
@@ -1175,6 +1410,34 @@ def check(ctx):
         if st != "ok" or val != b:
             ctx.fail("text:name-not-escaped", "an export/import name containing a double quote or a line break is printed unescaped and "
                      "re-parsed differently (or not at all)", lab, bytes=b.hex(), text=s, outcome=st)
+
+    # ---------------- hand-assembled canonical binaries (bytes ppci did not produce) ------------
+    def text_check(lab, m2, b):
+        ctx.count("eval_text")
+        st, val, s = text_roundtrip(m2)
+        if st != "ok":
+            ctx.fail(f"text:{st}-raises:{val}", f"text round trip: {st} raised {val}", lab, bytes=b.hex()[:4000], text=(s or "")[:3000])
+        elif val != b:
+            ctx.fail("text:roundtrip-bytes-differ", "Module(m.to_string()).to_bytes() != m.to_bytes()", lab, bytes=b.hex()[:4000],
+                     reparsed=val.hex()[:4000], text=s[:3000])
+
+    for lab, b, valid in hand_binaries(thorough):
+        lab = "hand:" + lab
+        ctx.count("eval_hand_binary")
+        ctx.nontrivial(lab)
+        m2, err = py_read(b)
+        ask("read " + hexs(b), "reader", lab, "ok " + sx_module(m2) if m2 is not None else err)
+        ask("canon " + hexs(b), "canon-hand", lab, "ok true")
+        if m2 is None:
+            ctx.fail("binary:reader-raises:" + err[4:], f"reading a hand-assembled canonical binary raised {err[4:]}", lab, bytes=b.hex()[:4000])
+            continue
+        b2, werr = py_write(m2)
+        ask("write " + sx_module(m2), "writer", lab + ":rewrite", "ok " + hexs(b2) if b2 is not None else werr)
+        if b2 != b:
+            ctx.fail("binary:canonical-input-not-reproduced", "a canonically encoded binary (hand-assembled, independent of ppci's writer) is not "
+                     "reproduced by read -> write", lab, bytes=b.hex()[:4000], rewritten=(b2.hex()[:4000] if b2 is not None else werr))
+        if valid and not any(d.__name__ in ("custom", "datacount") for d in m2.definitions):
+            text_check(lab, m2, b)
 
     # ---------------- (b) non-canonical and damaged inputs ------------------------------------
     inputs = list(CORPUS_BYTES)
